@@ -29,7 +29,7 @@ LeafTypes == {"bool", "int", "int64", "int8", "uint8", "uint64", "rune", "float6
 Scalars == LeafTypes \ {"A", "B"}
 
 (* a struct of one package whose fields have struct / container / named types of another package: zero, set, empty *)
-CrossShapes == {"crossName", "crossB", "crossPBZero", "crossSBZero", "crossABZero", "crossAB", "crossMBZero", "crossBS", "crossEmpty"}
+CrossShapes == {"mapTwoPkgs", "crossName", "crossB", "crossPBZero", "crossSBZero", "crossABZero", "crossAB", "crossMBZero", "crossBS", "crossEmpty"}
 
 (* which leaf types a shape's slot accepts *)
 Accepts(s) ==
